@@ -632,6 +632,33 @@ def udfWrite (fixed : Bool) : List FKind → List Bool × UFinal
     else if fixed then let r := udfWrite fixed ks; (false :: r.1, r.2)
     else ([], .trap)
 
+/-! ## 3b. Slice expressions in the builtin functions (tick/stateful/functions.go) -/
+
+/-- A slice / index expression in a builtin's body, as classified by the extractor. -/
+inductive SliceSite where
+  | guardedString (fn src : String)   -- `S[lo:hi]`, S a string argument, behind `lo < 0`, `hi > len(S)`, `lo > hi` returns
+  | rangeIndex (fn src : String)      -- `xs[:i]` / `xs[i+1:]` inside `for i := range xs`
+  | unknown (src : String)            -- any other shape (e.g. `[]rune(S)[lo:hi]` guarded by `len(S)`): no lemma
+deriving DecidableEq, Repr, Inhabited
+
+def SliceSite.recognised : SliceSite → Bool
+  | .unknown _ => false
+  | _ => true
+
+inductive SliceOut where
+  | ok | err | trap
+deriving DecidableEq, Repr, Inhabited
+
+/-- The guarded-string shape: the three returning guards, then `S[lo:hi]` on an operand of length
+`slen`; `glen` is the length the `hi` guard compares with. Go panics unless `0 ≤ lo ≤ hi ≤ slen`. -/
+def guardedSlice (slen glen lo hi : Int) : SliceOut :=
+  if lo < 0 then .err else if hi > glen then .err else if lo > hi then .err
+  else if 0 ≤ lo ∧ lo ≤ hi ∧ hi ≤ slen then .ok else .trap
+
+/-- The range-index shape: `xs[:i]` and `xs[i+1:]` with `0 ≤ i < len`. -/
+def rangeSlice (len i : Int) : SliceOut :=
+  if 0 ≤ i ∧ i < len then (if 0 ≤ i ∧ i ≤ len ∧ i + 1 ≤ len then .ok else .trap) else .err
+
 /-! ## 4. JSON node factory -/
 
 inductive GetNode where
